@@ -177,9 +177,10 @@ class HyperGraph:
                     ]
                     db = self.edges_size(outer_edges)
 
-                    # estimate QR cost
-                    da, db = sorted((da, db))
-                    C += da**2 * db
+                    # estimate QR cost (n.b. don't overwrite ``da``, it
+                    # is needed for the other nodes sharing the bond)
+                    dmin, dmax = sorted((da, db))
+                    C += dmin**2 * dmax
 
         if C < 0:
             raise ValueError("Negative cost!?", C)
